@@ -112,6 +112,11 @@ struct LockFreeOps : std::true_type {};
 template <class T, class... P>
 struct LockFreeOps<xenium::vyukov_bounded_queue<T, P...>> : std::false_type {}; // try_push/try_pop are the strong (blocking) variants
 
+template <class Q, class = void>
+struct has_pop : std::false_type {};
+template <class Q>
+struct has_pop<Q, std::void_t<decltype(std::declval<Q&>().pop())>> : std::true_type {};
+
 template <class Q, class El, class Push, class Make>
 void own_test() {
   constexpr bool LF = LockFreeOps<Q>::value;
@@ -144,10 +149,22 @@ void own_test() {
       }
     }
   };
-  auto do_pop = [q]() {
+  // popping entry point: try_pop(value_type&) for even, pop() -> std::optional<value_type> for odd sequence numbers
+  // (--opt api=0 / 1 fixes one of them); michael_scott_queue has try_pop only
+  const int api = (int)opt("api", 2);
+  auto do_pop = [q, api](int seq) {
     typename El::type v{};
     op_begin(1, 0, 0, LF);
-    bool ok = q->try_pop(v);
+    bool ok;
+    if constexpr (has_pop<Q>::value) {
+      if (api == 1 || (api == 2 && (seq & 1))) {
+        auto r = q->pop();
+        ok = r.has_value();
+        if (ok) v = std::move(*r);
+      } else
+        ok = q->try_pop(v);
+    } else
+      ok = q->try_pop(v);
     op_end(ok, ok && El::holds(v) ? El::id_of(v) : 0);
     if (ok) {
       if (!El::holds(v)) fail("OWNERSHIP", "successful pop returned an empty value");
@@ -166,7 +183,7 @@ void own_test() {
       for (int i = 0; i < m; i++) {
         if (p.op[t][i] == 0) do_push(base + i);
         else
-          do_pop();
+          do_pop(i + 1);
       }
     });
   }
